@@ -279,8 +279,8 @@ varintAdaptiveSelectEncoding(const varintAdaptiveDataStats *stats) {
      * Only use if all values are unique or nearly unique
      * AND data is already sorted (since BITMAP returns values in sorted order)
      */
-    if (stats->fitsInBitmapRange && stats->uniqueRatio > 0.9f &&
-        (stats->isSorted || stats->isReverseSorted)) {
+    if (stats->fitsInBitmapRange && stats->isSorted &&
+        stats->uniqueCount == stats->count) {
         /* All or nearly all values are unique - bitmap might work */
         if (stats->range > 0 && stats->count < 10000) {
             float density = (float)stats->count / (float)stats->range;
